@@ -135,4 +135,56 @@ theorem C17_transition_edges_complete (lhs rhs : AElem) (offL offR : Nat) (a b :
   rw [List.mem_filterMap]
   exact ⟨b, hb, by simp [hc, hl, hr, hra, hrb]⟩
 
+theorem tokenNodes_ids (off : Nat) (t : AToken) (mn mw : Option Rat) :
+    (tokenNodes off t mn mw).map (·.id) = List.range' off t.atoms.length := by
+  rw [(C17_token_nodes off t mn mw).1]
+  apply List.ext_getElem
+  · simp
+  · intro i h1 h2; simp
+
+theorem tokens_ids (toks : List AToken) (off : Nat) (mn mw : Option Rat) :
+    (((toks.zip (tokenOffsets off toks)).map fun (t, o) => tokenNodes o t mn mw).flatten).map (·.id) =
+      List.range' off ((toks.map (·.atoms.length)).sum) := by
+  induction toks generalizing off with
+  | nil => simp [tokenOffsets]
+  | cons t ts ih =>
+    simp only [tokenOffsets, List.zip_cons_cons, List.map_cons, List.flatten_cons, List.map_append, List.sum_cons]
+    rw [tokenNodes_ids, ih, ← List.range'_append_1]
+
+theorem elem_ids (off : Nat) (e : AElem) : ((elemNodesEdges off e).1).map (·.id) = List.range' off (elemSize e) := by
+  cases e with
+  | tok t =>
+    simp only [elemNodesEdges, elemSize, elemTokens, List.map_cons, List.map_nil, List.sum_cons, List.sum_nil, Nat.add_zero]
+    exact tokenNodes_ids off t _ _
+  | stoch l r reps ends mn mw =>
+    simp only [elemNodesEdges, elemSize, elemTokens]
+    rw [tokens_ids]
+    congr 1
+    simp [List.map_append, List.map_map, Function.comp_def]
+
+theorem elems_ids (els : List AElem) (off : Nat) :
+    ((((els.zip (elemOffsets off els)).map fun (e, o) => elemNodesEdges o e).map (·.1)).flatten).map (·.id) =
+      List.range' off ((els.map elemSize).sum) := by
+  induction els generalizing off with
+  | nil => simp [elemOffsets]
+  | cons e es ih =>
+    simp only [elemOffsets, List.zip_cons_cons, List.map_cons, List.flatten_cons, List.map_append, List.sum_cons]
+    rw [elem_ids, ih, ← List.range'_append_1]
+
+/-- **C17 (one node per atom, globally)**: the nodes of the stochastic atom graph are numbered `0, 1, …, N−1` in written order, `N`
+being the number of atoms of all tokens of all elements: exactly one node per atom, no id twice -/
+theorem C17_nodes_one_per_atom (els : List AElem) (wd : Bool) :
+    (stochAtomGraph els wd).nodes.map (·.id) = List.range ((els.map elemSize).sum) := by
+  unfold stochAtomGraph
+  simp only
+  have h := elems_ids els 0
+  rw [List.range_eq_range']
+  split
+  · exact h
+  · rw [List.map_map]
+    have : ((fun (n : ANode) => n.id) ∘ fun (n : ANode) => ({ n with mn := none, mw := none } : ANode)) = fun n => n.id := by
+      funext n; rfl
+    rw [this]; exact h
+
+
 end GBS
